@@ -396,6 +396,8 @@ class Interp:
         if isinstance(a, VStruct):
             r = self.call_method(a, f'__{op}__', [b])
             return r
+        if isinstance(a, tuple) and isinstance(b, tuple) and (contains_sym(a) or contains_sym(b)):
+            return self.tuple_order(op, a, b, node)
         if not is_sym(a) and not is_sym(b):
             return getattr(operator, op)(a, b)
         if isinstance(a, VBox):
@@ -420,6 +422,31 @@ class Interp:
             self.oblige('safety:order-same-type', z3.Or(*same), node, 'TypeError: < between different types')
             return res
         raise Unsupported(f'order on sort {s}')
+
+    def tuple_order(self, op, a, b, node=None):
+        """python's tuple comparison: the first position where the elements are not == decides (with the strict comparison of
+        these two elements); if there is none, the lengths decide.  Comparing None with anything at the deciding position is a
+        TypeError (safety obligation under the condition that this position decides)."""
+        strict = {'lt': 'lt', 'le': 'lt', 'gt': 'gt', 'ge': 'gt'}[op]
+        if not a or not b:
+            return getattr(operator, op)(len(a), len(b))
+        x, y = a[0], b[0]
+        e = self.eq(x, y)
+        rest = self.tuple_order(op, a[1:], b[1:], node)
+        if e is True:
+            return rest
+        if isinstance(x, VOpt) or isinstance(y, VOpt):
+            xn = x.none if isinstance(x, VOpt) else (x is None)
+            yn = y.none if isinstance(y, VOpt) else (y is None)
+            ne = self.lnot(e)
+            ok = self.land(self.lnot(xn), self.lnot(yn))
+            self.oblige('safety:order-none', self.lor(self.lnot(ne), ok), node, 'TypeError: < between None and a value')
+            xv = x.val if isinstance(x, VOpt) else x
+            yv = y.val if isinstance(y, VOpt) else y
+            here = self.order(strict, xv, yv, node) if (xv is not None and yv is not None) else False
+        else:
+            here = self.order(strict, x, y, node)
+        return self.lor(self.land(self.lnot(e), here), self.land(e, rest))
 
     # ================================================================ fresh / havoc / snapshot
     def fresh_like(self, v, base='h'):
